@@ -203,3 +203,105 @@ func sortedFuncs(m map[*ssa.Function]bool) []*ssa.Function {
 	})
 	return out
 }
+
+// dispatcherFns: the functions holding the wire-method dispatch table (a map literal from method names to functions
+// that includes "tools/call"), and everything from which such a function is reachable is "above" it.
+func (c *Ctx) dispatchReach() map[*ssa.Function]bool {
+	if c.dispReach != nil {
+		return c.dispReach
+	}
+	targets := map[*ssa.Function]bool{}
+	for fn, rows := range c.MapLiteralDispatch() {
+		for _, r := range rows {
+			if r.Method == "tools/call" {
+				targets[fn] = true
+			}
+		}
+	}
+	// backward reachability over the call graph
+	seen := map[*ssa.Function]bool{}
+	var stack []*ssa.Function
+	for t := range targets {
+		seen[t] = true
+		stack = append(stack, t)
+	}
+	for len(stack) > 0 {
+		f := stack[len(stack)-1]
+		stack = stack[:len(stack)-1]
+		n := c.G.Nodes[f]
+		if n == nil {
+			continue
+		}
+		for _, e := range n.In {
+			if cf := e.Caller.Func; !seen[cf] {
+				seen[cf] = true
+				stack = append(stack, cf)
+			}
+		}
+	}
+	c.dispReach = seen
+	return seen
+}
+
+// isDispatchCall: the call hands a decoded request (*JSONRPCRequest argument, no http.ResponseWriter) to a function
+// from which the wire-method dispatch table is reachable — "the request is dispatched here", whatever the
+// dispatcher's interface or method is called.
+func (c *Ctx) isDispatchCall(call ssa.CallInstruction) bool {
+	cc := call.Common()
+	hasReq := false
+	for _, a := range cc.Args {
+		switch ir.TypeStr(a.Type()) {
+		case "*mcp.JSONRPCRequest":
+			hasReq = true
+		case "net/http.ResponseWriter":
+			return false
+		}
+	}
+	if !hasReq {
+		return false
+	}
+	dr := c.dispatchReach()
+	for _, cal := range ir.Callees(c.G, call) {
+		if dr[cal] && c.P.IsLib(cal) {
+			return true
+		}
+	}
+	return false
+}
+
+// isRespondCall: the call hands the HTTP ResponseWriter to a method of a library-declared interface (the responder
+// abstraction that writes the answer in JSON or SSE form) — through the interface or directly on an implementing
+// type — whatever the interface and method are called.
+func isRespondCall(c *Ctx, call ssa.CallInstruction) bool {
+	if !passesWriter(call) {
+		return false
+	}
+	cc := call.Common()
+	if cc.IsInvoke() {
+		return cc.Method != nil && cc.Method.Pkg() != nil && strings.HasPrefix(cc.Method.Pkg().Path(), ir.RootPath)
+	}
+	sc := ir.StaticCallee(call)
+	if sc == nil || !c.P.IsLib(sc) || sc.Signature.Recv() == nil {
+		return false
+	}
+	recv := sc.Signature.Recv().Type()
+	for _, pk := range c.P.Pkgs {
+		sc2 := pk.Types.Scope()
+		for _, name := range sc2.Names() {
+			tn, ok := sc2.Lookup(name).(*types.TypeName)
+			if !ok {
+				continue
+			}
+			it, ok := tn.Type().Underlying().(*types.Interface)
+			if !ok || it.NumMethods() == 0 || !types.Implements(recv, it) {
+				continue
+			}
+			for i := 0; i < it.NumMethods(); i++ {
+				if it.Method(i).Name() == sc.Name() {
+					return true
+				}
+			}
+		}
+	}
+	return false
+}
